@@ -122,8 +122,9 @@ expression_t expression_t::clone_deeper(frame_t frame, frame_t select) const
         if (!res && select != frame_t()) {
             res = select.resolve(data->symbol.get_name(), uid);
         }
-        assert(res);
-        expr.data->symbol = uid;
+        // a variable bound inside the expression (the binder of a forall, its uses in the body) lives in a scope of
+        // its own, which neither frame knows: it keeps its symbol
+        expr.data->symbol = res ? uid : data->symbol;
     } else {
         expr.data->symbol = data->symbol;
     }
